@@ -229,6 +229,7 @@ func checkBT2(w *W, prop string, level int, s string, v *spec.V2, exp *spec.V2Ex
 
 func runC04(r *Run) int {
 	r.CleanOut()
+	otherVersionPrelude(r, false)
 	kf := newKF("C04", "KF-1")
 	var nontrivial atomic.Int64
 	var ties atomic.Int64
@@ -319,6 +320,7 @@ func checkEnv2(w *W, s string, v *spec.V2, kf *kfState, st *c05stats) {
 
 func runC05(r *Run) int {
 	r.CleanOut()
+	otherVersionPrelude(r, false)
 	kf := newKF("C05", "KF-2")
 	st := &c05stats{}
 	const nKeys = 27 * 1728
